@@ -202,6 +202,7 @@ func checkC11(r *mc.Report, thorough bool) {
 		}
 	})
 	p.Done()
+	checkC11U(r)
 	r.Assume("field kinds: the supported kinds listed in data/encode.go (scalars, pointers to scalars and flat structs, slices, arrays, string-keyed maps, flat structs)")
 }
 
